@@ -197,6 +197,9 @@ def search(res):
         ev, pattern = dyadic_eigs(rng, d)
         if i == 0:
             d, ev, pattern = 3, [1.0, 1.0, 2.0], "repeated"
+        elif i == 3:
+            # differences that nearly, but not exactly, coincide (1 and 1.00001) on a large offset
+            d, ev, pattern = 3, [300.0, 301.0, 302.00001], "nearly-equidistant"
         case = cases.physical_case(rng, "quick", d=d, n=2 if d > 2 else 3)
         case["coupling"] = np.diag(np.array(ev, dtype=complex))
         if i in (1, 2):
